@@ -1,5 +1,6 @@
 pub mod c04;
 pub mod c05;
+pub mod c17;
 
 use crate::runner::Scenario;
 
@@ -7,8 +8,9 @@ pub fn by_id(id: &str) -> Option<Box<dyn Scenario>> {
     match id {
         "C04" => Some(Box::new(c04::C04)),
         "C05" => Some(Box::new(c05::C05)),
+        "C17" => Some(Box::new(c17::C17)),
         _ => None,
     }
 }
 
-pub const ALL: &[&str] = &["C04", "C05"];
+pub const ALL: &[&str] = &["C04", "C05", "C17"];
